@@ -152,6 +152,18 @@ func (x *Exec) wakePark(cfg *Config, cv TV, ld *lockDecl, o *origin, pos token.P
 	en := x.specBool(env, k.enabled)
 	// a waiter must not park while its condition already holds
 	x.oblige(cfg, "park-while-enabled", k.strct+"."+k.cond+"/"+k.kind+": "+k.enabled.exprString(), Not(en), []string{"C07"}, pos)
+	// per-waiter condition (e.g. an iterator's cursor has no successor yet):
+	// "option park-requires <expr>" over the function's own variables
+	if x.c != nil && x.c.Options["park-requires"] != "" && len(cfg.frames) > 0 {
+		pe, err := ParseExpr(x.c.Options["park-requires"])
+		if err != nil {
+			unsupported("option park-requires: %v", err)
+		}
+		penv := x.entryEnv(cfg)
+		penv.frame = cfg.frames[0]
+		penv.old = cfg.old
+		x.oblige(cfg, "park-requires", x.c.Options["park-requires"], x.specBool(penv, pe), nil, pos)
+	}
 	wn, wa := x.ghostIntLoc(st, cv.Org.STyp, k.wField, cv.Org.Base)
 	st.heap[wn] = Store(wa, cv.Org.Base, Add(Select(wa, cv.Org.Base), x.intLit(1, x.idxSort())))
 }
